@@ -21,10 +21,15 @@ pub fn checked(decs: &[(String, Type)], actor: &Option<Type>) -> Option<(TypeEnv
 
 fn equal_in(env: &TypeEnv, t1: &Type, env2: &TypeEnv, t2: &Type) -> bool {
     use candid::types::subtype::{equal, Gamma};
-    let mut merged = env.clone();
-    let t2r = merged.merge_type(env2.clone(), t2.clone());
-    let mut g = Gamma::new();
-    equal(&mut g, &merged, t1, &t2r).is_ok()
+    // the evaluated environment need not be well-formed; a panic inside /repo's `equal` on it is "not equal"
+    let (env, t1, env2, t2) = (env.clone(), t1.clone(), env2.clone(), t2.clone());
+    guarded(move || {
+        let mut merged = env.clone();
+        let t2r = merged.merge_type(env2, t2);
+        let mut g = Gamma::new();
+        equal(&mut g, &merged, &t1, &t2r).is_ok()
+    })
+    .unwrap_or(false)
 }
 
 pub fn eval(out: &mut Out, op: &str, args: &[&str]) -> Option<String> {
